@@ -1,12 +1,13 @@
 """Regenerate the baseline tables the loader uses to recognise renames and extracted helpers:
 txsa/known_funcs.txt (qualified function names), txsa/known_fps.json (body fingerprints of
-top-level functions and methods) and txsa/known_attrs.json (usage profile of every attribute
-name).  Run it ONLY when the rules have been brought up to date with the tree in /repo."""
+top-level functions and methods) txsa/known_attrs.json (usage profile of every attribute
+name) and txsa/known_globals.json (value dumps of module-level names bound once).  Run it ONLY when the rules have been brought up to date with the tree in /repo."""
 import json, sys
 sys.path.insert(0, '/verif')
 from txsa import loader
 loader._FPS = {}
 loader._APROF = {}
+loader._KG = {}
 loader.Program._KNOWN = False
 prog = loader.Program('/repo')
 open('/verif/txsa/known_funcs.txt', 'w').write('\n'.join(sorted(prog.all_funcs)) + '\n')
@@ -14,4 +15,6 @@ fps = {q: loader.body_fingerprint(fi.node) for q, fi in prog.all_funcs.items() i
 json.dump(fps, open('/verif/txsa/known_fps.json', 'w'), indent=0, sort_keys=True)
 prof = loader.attr_profiles({m.name: m.tree for m in prog.modules.values()}, {})
 json.dump(prof, open('/verif/txsa/known_attrs.json', 'w'), indent=0, sort_keys=True)
+kg = {m.name: {n: loader._dump(v[0]) for n, v in m.assigns.items() if len(v) == 1} for m in prog.modules.values()}
+json.dump(kg, open('/verif/txsa/known_globals.json', 'w'), indent=0, sort_keys=True)
 print(len(prog.all_funcs), 'functions,', len(fps), 'fingerprints,', len(prof), 'attribute profiles')
